@@ -68,10 +68,25 @@ pub struct Case {
 	pub clock_toggles: Vec<usize>,
 	/// envelope stream: render a DC sound instead of a bare parameter
 	pub envelope: bool,
+	/// rendered stream: every gain stage of the mixer through the real manager
+	#[serde(default)]
+	pub stage: Option<super::c06_stage::StageCase>,
 }
 
 fn gen_case(seed: u64, tier: Tier) -> Case {
 	let mut rng = Rng::new(seed);
+	if rng.chance(0.15) {
+		return Case {
+			ty: Ty::Db,
+			initial: 0.0,
+			dts: vec![],
+			sets: vec![],
+			clock_speed: 1.0,
+			clock_toggles: vec![],
+			envelope: false,
+			stage: Some(super::c06_stage::gen(&mut rng, tier)),
+		};
+	}
 	let envelope = rng.chance(0.25);
 	let ty = if envelope {
 		Ty::Db
@@ -142,6 +157,7 @@ fn gen_case(seed: u64, tier: Tier) -> Case {
 		clock_speed: *rng.pick(&[1.0, 2.0, 10.0, 37.5, 0.5]) / total.max(0.01) * 3.0,
 		clock_toggles,
 		envelope,
+		stage: None,
 	}
 }
 
@@ -299,6 +315,9 @@ fn project_target(ty: Ty, v: f64) -> f64 {
 }
 
 pub fn run_case(case: &Case) -> CaseResult {
+	if let Some(stage) = &case.stage {
+		return super::c06_stage::run(stage);
+	}
 	if case.envelope {
 		return run_envelope(case);
 	}
@@ -568,6 +587,8 @@ fn run_envelope(case: &Case) -> CaseResult {
 					},
 				);
 				// starts from the current value (in dB); unknown exactly mid-tween, so take it from the last output
+				// (next to the -60 dB threshold a rounding of the decibel value decides between
+				// a gain of 0.001 and exact silence: either may be the tween's starting point)
 				let cur_db = if last <= 0.0 { -60.0 } else { 20.0 * last.log10() };
 				let cur_db = if active.is_none() { from_db } else { cur_db };
 				active = Some((
@@ -599,7 +620,10 @@ fn run_envelope(case: &Case) -> CaseResult {
 			None => (amp(from_db), amp(from_db), true),
 			Some((f, t, dur, easing, elapsed, delay)) => {
 				let (a_from, a_to) = (amp(*f), amp(*t));
-				let (lo, hi) = (a_from.min(a_to), a_from.max(a_to));
+				let (mut lo, hi) = (a_from.min(a_to), a_from.max(a_to));
+				if a_from <= 0.001_001 {
+					lo = 0.0;
+				}
 				if *delay > 1e-12 {
 					*delay -= chunk_secs;
 				} else {
@@ -684,8 +708,46 @@ impl Check for C06 {
 		run_case(&case)
 	}
 	fn shrink(&self, case: &Json) -> Vec<Json> {
-		let mut out = shrink_ops_array(case, "sets");
 		let c: Case = serde_json::from_value(case.clone()).unwrap();
+		if let Some(st) = &c.stage {
+			let mut out = vec![];
+			let mut push = |st2: super::c06_stage::StageCase| {
+				let mut c2 = c.clone();
+				c2.stage = Some(st2);
+				out.push(serde_json::to_value(c2).unwrap());
+			};
+			for k in 0..st.sets.len() {
+				let mut s2 = st.clone();
+				s2.sets.remove(k);
+				push(s2);
+			}
+			if st.callbacks.len() > 1 {
+				let mut s2 = st.clone();
+				s2.callbacks.pop();
+				let n = s2.callbacks.len();
+				s2.sets.retain(|s| s.at < n);
+				push(s2);
+			}
+			if st.route.is_some() {
+				let mut s2 = st.clone();
+				s2.route = None;
+				push(s2);
+			}
+			if st.initial != [0.0; 5] {
+				let mut s2 = st.clone();
+				s2.initial = [0.0; 5];
+				push(s2);
+			}
+			for k in 0..st.sets.len() {
+				if st.sets[k].easing != EasingSpec::Linear {
+					let mut s2 = st.clone();
+					s2.sets[k].easing = EasingSpec::Linear;
+					push(s2);
+				}
+			}
+			return out;
+		}
+		let mut out = shrink_ops_array(case, "sets");
 		if c.dts.len() > 2 {
 			let mut c2 = c.clone();
 			c2.dts.truncate(c.dts.len() - c.dts.len() / 3 - 1);
